@@ -371,6 +371,35 @@ func isErrorType(t types.Type) bool {
 	return types.Identical(t, types.Universe.Lookup("error").Type())
 }
 
+// RetVal returns the i-th operand of a return, looking through the result
+// spill that go/ssa introduces in functions with defers (the operand is then a
+// load of a local that was stored just before `rundefers` in the same block).
+func RetVal(r *ssa.Return, i int) ssa.Value {
+	v := r.Results[i]
+	ld, ok := v.(*ssa.UnOp)
+	if !ok || ld.Op != token.MUL {
+		return v
+	}
+	a, ok := ld.X.(*ssa.Alloc)
+	if !ok {
+		return v
+	}
+	b := r.Block()
+	var last ssa.Value
+	for _, in := range b.Instrs {
+		if in == ssa.Instruction(ld) {
+			break
+		}
+		if st, ok := in.(*ssa.Store); ok && st.Addr == a {
+			last = st.Val
+		}
+	}
+	if last != nil {
+		return last
+	}
+	return v
+}
+
 // ReturnsNilError: the return's error operand is the constant nil, or the
 // function has no error result.
 func ReturnsNilError(r *ssa.Return) bool {
@@ -378,7 +407,7 @@ func ReturnsNilError(r *ssa.Return) bool {
 	if idx < 0 {
 		return true
 	}
-	c, ok := r.Results[idx].(*ssa.Const)
+	c, ok := RetVal(r, idx).(*ssa.Const)
 	return ok && c.Value == nil
 }
 
@@ -389,7 +418,7 @@ func ReturnsFreshError(r *ssa.Return) bool {
 	if idx < 0 {
 		return false
 	}
-	return isFreshError(r.Results[idx], 0)
+	return isFreshError(RetVal(r, idx), 0)
 }
 
 func isFreshError(v ssa.Value, d int) bool {
